@@ -73,9 +73,9 @@ def run(ctx: Ctx) -> None:
     cargs = [a.arg for a in contains.node.args.args]
     aargs = [a.arg for a in and_.node.args.args]
 
-    def spans_from(ranks, files=(0, 0)):
-        s = SpanV(LocV(files[0], ranks[0]), LocV(files[0], ranks[1]))
-        o = SpanV(LocV(files[1], ranks[2]), LocV(files[1], ranks[3]))
+    def spans_from(pts, files=(0, 0)):
+        s = SpanV(LocV(files[0], *pts[0]), LocV(files[0], *pts[1]))
+        o = SpanV(LocV(files[1], *pts[2]), LocV(files[1], *pts[3]))
         return s, o
 
     # ---------------- span in span / span & span
@@ -87,24 +87,36 @@ def run(ctx: Ctx) -> None:
     def eval_fn(fn, argnames, s, o):
         return ev.run(fn.node, {argnames[0]: s, argnames[1]: o})
 
+    # A location is (line rank, column rank); Loc order is lexicographic.  All weak orderings of
+    # the four lines x all weak orderings of the four columns = every order-distinguishable case.
     cases = []
-    for ranks in weak_orderings(4):
-        if ranks[0] <= ranks[1] and ranks[2] <= ranks[3]:
-            cases.append((ranks, (0, 0)))
+    w4 = list(weak_orderings(4))
+    for lr in w4:
+        for cr in w4:
+            pts = tuple(zip(lr, cr))
+            if pts[0] <= pts[1] and pts[2] <= pts[3]:
+                cases.append((pts, (0, 0)))
     # different files: Loc order compares the file first
-    for r2 in weak_orderings(2):
-        for r2b in weak_orderings(2):
-            if r2[0] <= r2[1] and r2b[0] <= r2b[1]:
-                cases.append(((r2[0], r2[1], r2b[0], r2b[1]), (0, 1)))
-                cases.append(((r2[0], r2[1], r2b[0], r2b[1]), (1, 0)))
+    w2 = list(weak_orderings(2))
+    for la in w2:
+        for ca in w2:
+            for lb in w2:
+                for cb in w2:
+                    pts = ((la[0], ca[0]), (la[1], ca[1]), (lb[0], cb[0]), (lb[1], cb[1]))
+                    if pts[0] <= pts[1] and pts[2] <= pts[3]:
+                        cases.append((pts, (0, 1)))
+                        cases.append((pts, (1, 0)))
     for ranks, files in cases:
         s, o = spans_from(ranks, files)
+        if "contains" in undecided and "and" in undecided:
+            break
         same = files[0] == files[1]
         if same:
             n_same += 1
         else:
             n_diff += 1
-        desc = {"self": [ranks[0], ranks[1]], "other": [ranks[2], ranks[3]], "same_file": same}
+        desc = {"self": [list(ranks[0]), list(ranks[1])], "other": [list(ranks[2]), list(ranks[3])], "same_file": same,
+                "encoding": "[line rank, column rank]"}
         # containment: `o in s`
         try:
             got = ev.truth(eval_fn(contains, cargs, s, o))
@@ -125,7 +137,7 @@ def run(ctx: Ctx) -> None:
                 want_s = "None"
             elif lo.key() < hi.key():
                 ok = isinstance(got, SpanV) and got.start.key() == lo.key() and got.end.key() == hi.key()
-                want_s = f"Span[{lo.rank},{hi.rank}]"
+                want_s = f"Span[{lo.key()[1:]},{hi.key()[1:]}]"
             elif lo.key() > hi.key():
                 ok = got is None
                 want_s = "None"
@@ -160,17 +172,25 @@ def run(ctx: Ctx) -> None:
     bad_loc: list = []
     und = None
     n_loc = 0
-    loc_cases = [(r, (0, 0)) for r in weak_orderings(3) if r[0] <= r[1]]
-    for r2 in weak_orderings(2):
-        if r2[0] <= r2[1]:
-            loc_cases.append(((r2[0], r2[1], 0), (0, 1)))
-            loc_cases.append(((r2[0], r2[1], 0), (1, 0)))
+    loc_cases = []
+    w3 = list(weak_orderings(3))
+    for lr in w3:
+        for cr in w3:
+            pts = tuple(zip(lr, cr))
+            if pts[0] <= pts[1]:
+                loc_cases.append((pts, (0, 0)))
+    for la in w2:
+        for ca in w2:
+            pts = ((la[0], ca[0]), (la[1], ca[1]), (0, 0))
+            if pts[0] <= pts[1]:
+                loc_cases.append((pts, (0, 1)))
+                loc_cases.append((pts, (1, 0)))
     for ranks, files in loc_cases:
         n_loc += 1
-        s = SpanV(LocV(files[0], ranks[0]), LocV(files[0], ranks[1]))
-        x = LocV(files[1], ranks[2])
+        s = SpanV(LocV(files[0], *ranks[0]), LocV(files[0], *ranks[1]))
+        x = LocV(files[1], *ranks[2])
         same = files[0] == files[1]
-        desc = {"span": [ranks[0], ranks[1]], "loc": ranks[2], "same_file": same}
+        desc = {"span": [list(ranks[0]), list(ranks[1])], "loc": list(ranks[2]), "same_file": same}
         try:
             got = ev.truth(ev.run(contains.node, {cargs[0]: s, cargs[1]: x}))
             if not same:
